@@ -146,6 +146,10 @@ def wrap_client(base, rig, is_async):
     return HandoffClient
 
 
+class Wedged(Exception):
+    """the provider under test is dead-locked; the rig cannot be used (or stopped) any more."""
+
+
 class Rig:
     """one provider (one manager class, one max duration, one failure limit) + raw subscribers + model + monitors."""
 
@@ -197,6 +201,9 @@ class Rig:
         self.by_endpoint: dict = {}
         self.armed: dict = {}
         self.event = None
+        self.tick_in_delivery = None
+        self.tick_completed_in_delivery = None
+        self.wedged = False
         self.stopped = False
         self.steps_done: list = []
         self.memo: dict = {}
@@ -290,6 +297,11 @@ class Rig:
         return hib.Action, hib.To, tuple(sorted((el.tag, el.text) for el in hib.reference_parameters)), None
 
     def policy(self, entry):
+        if self.tick_in_delivery is not None and entry.netloc != self.base.netloc:
+            # schedule control: a housekeeping tick becomes due while this delivery is in progress
+            dt, self.tick_in_delivery = self.tick_in_delivery, None
+            self.tick_completed_in_delivery = self.vc.advance(dt, budget=30)
+            self.ctx.count(f'schedule.tick_during_delivery.{"completed" if self.tick_completed_in_delivery else "blocked_until_delivery_done"}')
         plan = self.armed.get((entry.netloc, entry.path))
         if not plan:
             plan = self.armed.get((entry.netloc, None))
@@ -723,11 +735,67 @@ class Rig:
         else:
             weights = {'descr': {'descr_update': 2, 'descr_create': 1}}.get(kind, {kind: 1})
             op = mdibops.gen_op(random.Random(st['seed']), mdib, self.memo, weights)
-            ap = mdibops.apply_op(mdib, op, self.memo)
+            if st.get('tick_in_delivery'):
+                ap = self.transaction_with_tick(op, st['tick_in_delivery'])
+            else:
+                ap = mdibops.apply_op(mdib, op, self.memo)
             if ap.outcome != 'ok':
                 self.ctx.count(f'report.transaction_{ap.outcome}')
         if not self.stopped and self.ctx.counters['report.events'] == n0:
             self.ctx.count('report.no_event')
+
+    def transaction_with_tick(self, op, dt):
+        """run the transaction in a helper thread; during its first delivery the clock is advanced by dt (policy hook) so that the
+        real housekeeping loops run while a report is being sent.  A dead-lock is decided on the wait-for graph (logical, stable):
+        a housekeeping thread inside SoapClientPool.forget_usr -> run_coro (holds the pool lock, waits for the event loop) while the
+        event loop thread is inside SoapClientPool.get_soap_client (waits for the pool lock)."""
+        import sys
+        import threading
+        result = {}
+        self.tick_in_delivery = dt
+        thr = threading.Thread(target=lambda: result.update(ap=mdibops.apply_op(self.world.mdib, op, self.memo)), daemon=True,
+                               name='vf-transaction')
+        thr.start()
+        pool = self.provider._soap_client_pool
+        seen = 0
+        for _ in range(6000):
+            thr.join(0.005)
+            if not thr.is_alive():
+                break
+            loop_thr = pool.async_loop_subscr_mgr
+            if loop_thr is None or not pool._lock.locked():
+                continue
+            frames = sys._current_frames()
+
+            def names(ident):
+                f, out = frames.get(ident), []
+                while f is not None:
+                    out.append(f.f_code.co_name)
+                    f = f.f_back
+                return out
+            loop_stack = names(loop_thr.ident)
+            hk_stacks = [names(m._housekeeping_thread.ident) for m in self.mgrs.values()]
+            cycle = loop_stack[:1] == ['get_soap_client'] and any('forget_usr' in n and 'run_coro' in n for n in hk_stacks)
+            seen = seen + 1 if cycle else 0
+            if seen >= 3:
+                self.wedged = self.stopped = True
+                self.witness(f'deadlock.housekeeping_forget_usr_vs_send.{self.sa}',
+                             'provider dead-locked: housekeeping removes a subscription (SoapClientPool.forget_usr holds the pool lock and waits '
+                             'for the event loop) while the event loop sends a report (get_soap_client waits for the pool lock); live '
+                             'subscriptions are never sent this or any later report, the transaction never returns',
+                             event_loop_thread=loop_stack[:6], housekeeping_threads=[n[:8] for n in hk_stacks])
+                raise Wedged
+        else:
+            self.wedged = self.stopped = True
+            raise RuntimeError('transaction with a housekeeping tick during delivery did not return (no wait-for cycle seen)')
+        if self.tick_in_delivery is not None:
+            self.tick_in_delivery = None
+            self.ctx.count('schedule.tick_during_delivery.no_delivery')
+        elif not self.tick_completed_in_delivery and not self.vc.settle():
+            raise RuntimeError('virtual clock: housekeeping threads did not park again after the delivery')
+        if self.tick_completed_in_delivery is False:
+            self.vc.advance(0.0)
+        return result['ap']
 
     def do_stop(self, st):
         """provider.stop_all(send_subscription_end=flag); afterwards everything must be unknown and silent."""
@@ -739,7 +807,7 @@ class Rig:
             for k in model.subs:
                 reasons[k] = model.dead_reason(k, self.now)
             expect.update(model.stop(self.now, flag))
-        self.vc.release()  # housekeeping threads leave sleep(); logical time stays frozen
+        self.end_housekeeping()
         start = len(self.handoffs)
         self.provider.stop_all(send_subscription_end=flag)
         self.stopped = True
@@ -806,14 +874,28 @@ class Rig:
                 ctx.count(f'end.exactly_one_right_epr.{shape}')
 
     # -- sequence shapes for the evidence ---------------------------------------------------------
+    def end_housekeeping(self):
+        """what stop_all() does first for each manager (flag off, join), done for ALL managers before stop_all starts: the clock is
+        switched to free-running (logical time stays frozen), every housekeeping thread makes its last pass and ends.  Otherwise the
+        housekeeping thread of the second manager would run concurrently with the SubscriptionEnd messages of the first one
+        (non-deterministic; with the async managers it can dead-lock: SoapClientPool.forget_usr holds the pool lock while it waits for
+        the event loop, the event loop waits for the pool lock in get_soap_client)."""
+        for mgr in self.mgrs.values():
+            mgr._run_housekeeping_thread = False
+        self.vc.release()
+        for name, mgr in self.mgrs.items():
+            mgr._housekeeping_thread.join(timeout=60)
+            if mgr._housekeeping_thread.is_alive():
+                raise RuntimeError(f'housekeeping thread of {name} did not end')
+
     def close(self):
-        if not self.stopped:
-            self.vc.release()
+        if not self.stopped and not self.wedged:
+            self.stopped = True
             try:
+                self.end_housekeeping()
                 self.provider.stop_all(send_subscription_end=False)
             except Exception:  # noqa: BLE001
                 pass
-            self.stopped = True
 
 
 # ------------------------------------------------------------------------------------------------
@@ -933,6 +1015,11 @@ def directed(limit):
                                  sub_step(subscriber=4, flt=('EpisodicMetricReport+X', 'EpisodicAlertReport')),
                                  sub_step(subscriber=4, flt=('X+EpisodicMetricReport',)), rep, alert,
                                  {'op': 'stop', 'send_end': True}]
+    out['tick_during_delivery'] = [
+        sub_step(subscriber=0, mgr='Set', flt=('OperationInvokedReport',), expires=1), sub_step(subscriber=1, expires=None),
+        sub_step(subscriber=2, expires=None), {'op': 'report', 'kind': 'opinvoked', 'seed': 5}, adv(0.9),
+        {'op': 'report', 'kind': 'metric', 'seed': 1, 'tick_in_delivery': 0.2}, rep, req('getstatus', 0), req('getstatus', 1), adv(2.5),
+        req('getstatus', 0), rep, {'op': 'stop', 'send_end': True}]
     bog = []
     for kind in ('renew', 'getstatus', 'unsubscribe'):
         for b in ('random_id', 'no_id', 'wrong_service', 'foreign_refparam'):
@@ -955,8 +1042,11 @@ def run_sequence(ctx, cfg, steps, label):
             return
         ctx.count(f'sequence.{cfg["flavour"]}')
         d0 = ctx.counters['delivery.decisions']
-        for st in steps:
-            rig.step(st)
+        try:
+            for st in steps:
+                rig.step(st)
+        except Wedged:
+            ctx.count('sequence.abandoned_provider_deadlocked')
         ticks = rig.vc.ticks
         ctx.count('clock.housekeeping_ticks', ticks)
         nontrivial = ctx.counters['delivery.decisions'] > d0
